@@ -8,6 +8,7 @@ From TLV Require Import Base.Shape Base.PyList Base.Tensor Base.BigSum Base.Ops 
   Proofs.TransformsProofsTTM Proofs.TransformsProofsOrtho Proofs.TransformsProofsNegMode Proofs.TransformsProofsNegMode2 Proofs.TransformsProofsAlign Proofs.TransformsProofsLink
   Model.TransformsApi Model.TransformsHeap Proofs.TransformsProofsValid Proofs.TransformsProofsHeap Proofs.TransformsProofsHeapTk
   Model.TransformsCplx Model.TransformsRT Proofs.TransformsProofsCplx Proofs.TransformsProofsRT Proofs.TransformsProofsBc Proofs.TransformsProofsLink2 Model.TransformsTkObj Proofs.TransformsProofsTkObj Proofs.TransformsProofsTkObjR Model.TransformsPfHeap Proofs.TransformsProofsPfHeap.
+From TLV Require Import Proofs.TransformsProofsLossy Model.TransformsTkObj8 Proofs.TransformsProofsTkObj8 Model.TransformsPfHeap Model.TransformsPfObj Proofs.TransformsProofsPfObj.
 From TLV Require Model.Factorized Proofs.FactorizedProofs Proofs.FactorizedProofs3 Proofs.FactorizedProofs5 Proofs.FactorizedProofs7 Proofs.FactorizedProofs9.
 Import ListNotations.
 
@@ -1255,4 +1256,170 @@ Proof.
   - unfold tcell_wf, twf. simpl. repeat split; try lia; try (intros l [<-|[<-|[<-|[]]]]; lia).
   - split; [vm_compute; auto|]. split; [do 3 eexists; split; [vm_compute; reflexivity|repeat split; vm_compute; reflexivity]|].
     split; [do 3 eexists; split; vm_compute; reflexivity|]. do 2 eexists. split; [vm_compute; reflexivity|]. repeat split; vm_compute; reflexivity.
+Qed.
+
+
+(* ================================================================== round 8 *)
+(* --- LOSSY compression (svd_compress_tensor_slices with a threshold that drops singular values; (U, s, Vh) is the SVD answer as data,
+   its contract X = U diag(s) Vh the hypothesis on the entry): the data is loading x score PLUS the dropped tail of the singular expansion,
+   whatever count_kept dropped; no hypothesis that everything is kept (compare C04_svd_compress_slice) *)
+Theorem C04_svd_compress_lossy : forall (F : Type) (Op : fops F), ring_theory (f0 Op) (f1 Op) (fadd Op) (fmul Op) (fsub Op) (fopp Op) (@eq F) ->
+  forall (rl : nat) (thr : F) (X U : mat F) (s : list F) (Vh score Lm : mat F) (j k : nat),
+  compress_slice Op rl thr X (U, s, Vh) = (score, Some Lm) -> length Vh = length s ->
+  j < length U -> k < ncols score ->
+  mget Op X j k = sumn Op (length s) (fun t => fmul Op (mget Op U j t) (fmul Op (vget Op s t) (mget Op Vh t k))) ->
+  mget Op X j k = fadd Op (mget Op (matmul Op Lm score) j k) (sumn Op (length s - count_kept Op thr s) (fun t => fmul Op (mget Op U j (count_kept Op thr s + t)) (fmul Op (vget Op s (count_kept Op thr s + t)) (mget Op Vh (count_kept Op thr s + t) k)))).
+Proof. exact @compress_slice_lossy. Qed.
+Print Assumptions C04_svd_compress_lossy.
+
+(* hence exact when every dropped singular value is zero (rank-deficient data, any threshold) *)
+Theorem C04_svd_compress_tail_zero : forall (F : Type) (Op : fops F), ring_theory (f0 Op) (f1 Op) (fadd Op) (fmul Op) (fsub Op) (fopp Op) (@eq F) ->
+  forall (rl : nat) (thr : F) (X U : mat F) (s : list F) (Vh score Lm : mat F) (j k : nat),
+  compress_slice Op rl thr X (U, s, Vh) = (score, Some Lm) -> length Vh = length s ->
+  j < length U -> k < ncols score ->
+  mget Op X j k = sumn Op (length s) (fun t => fmul Op (mget Op U j t) (fmul Op (vget Op s t) (mget Op Vh t k))) ->
+  (forall t, count_kept Op thr s <= t -> t < length s -> vget Op s t = f0 Op) ->
+  mget Op (matmul Op Lm score) j k = mget Op X j k.
+Proof. exact @compress_slice_tail_zero. Qed.
+Print Assumptions C04_svd_compress_tail_zero.
+
+(* with orthonormal left singular vectors (row a of U^T U is row a of the identity) the score is the coordinate matrix loading^T x data:
+   loading x score is the orthogonal projection of the data onto the kept vectors *)
+Theorem C04_svd_compress_score_coordinates : forall (F : Type) (Op : fops F), ring_theory (f0 Op) (f1 Op) (fadd Op) (fmul Op) (fsub Op) (fopp Op) (@eq F) ->
+  forall (rl : nat) (thr : F) (X U : mat F) (s : list F) (Vh score Lm : mat F) (a k : nat),
+  compress_slice Op rl thr X (U, s, Vh) = (score, Some Lm) -> length Vh = length s ->
+  (forall b, b < length s -> gram Op U a b = if Nat.eqb a b then f1 Op else f0 Op) ->
+  (forall j, j < length U -> mget Op X j k = sumn Op (length s) (fun t => fmul Op (mget Op U j t) (fmul Op (vget Op s t) (mget Op Vh t k)))) ->
+  a < count_kept Op thr s ->
+  sumn Op (length U) (fun j => fmul Op (mget Op Lm j a) (mget Op X j k)) = mget Op score a k.
+Proof. exact @compress_score_coordinates. Qed.
+Print Assumptions C04_svd_compress_score_coordinates.
+
+(* and what the compression discards is orthogonal to every kept left singular vector *)
+Theorem C04_svd_compress_residual_orthogonal : forall (F : Type) (Op : fops F), ring_theory (f0 Op) (f1 Op) (fadd Op) (fmul Op) (fsub Op) (fopp Op) (@eq F) ->
+  forall (rl : nat) (thr : F) (X U : mat F) (s : list F) (Vh score Lm : mat F) (a k : nat),
+  compress_slice Op rl thr X (U, s, Vh) = (score, Some Lm) -> length Vh = length s -> k < ncols score ->
+  (forall b, b < length s -> gram Op U a b = if Nat.eqb a b then f1 Op else f0 Op) ->
+  (forall j, j < length U -> mget Op X j k = sumn Op (length s) (fun t => fmul Op (mget Op U j t) (fmul Op (vget Op s t) (mget Op Vh t k)))) ->
+  a < count_kept Op thr s ->
+  sumn Op (length U) (fun j => fmul Op (mget Op Lm j a) (fsub Op (mget Op X j k) (mget Op (matmul Op Lm score) j k))) = f0 Op.
+Proof. exact @compress_residual_orthogonal. Qed.
+Print Assumptions C04_svd_compress_residual_orthogonal.
+
+(* compress with loss, fit the scores exactly, decompress: slice i of the decompressed tensor is the data minus the dropped tail *)
+Theorem C04_svd_compress_decompress_lossy : forall (F : Type) (Op : fops F), ring_theory (f0 Op) (f1 Op) (fadd Op) (fmul Op) (fsub Op) (fopp Op) (@eq F) ->
+  forall (rl : nat) (thr : F) (X U : mat F) (s : list F) (Vh score Lm : mat F) (w : list F) (A B C : mat F) (Ps : list (mat F))
+    (Ls : list (option (mat F))) w' A' B' C' Ps' (i j k : nat),
+  compress_slice Op rl thr X (U, s, Vh) = (score, Some Lm) -> length Vh = length s ->
+  mget Op X j k = sumn Op (length s) (fun t => fmul Op (mget Op U j t) (fmul Op (vget Op s t) (mget Op Vh t k))) ->
+  svd_decompress Op w A B C Ps Ls = Ok (w', [A'; B'; C'], Ps') -> i < length Ps -> nth i Ls None = Some Lm ->
+  length (nth i Ps []) = length score -> length B <= ncols (nth i Ps []) ->
+  (forall t, t < length score -> pf2_entry Op w A B C Ps i t k = mget Op score t k) ->
+  j < length U -> k < ncols score ->
+  mget Op X j k = fadd Op (pf2_entry Op w' A' B' C' Ps' i j k) (sumn Op (length s - count_kept Op thr s) (fun t => fmul Op (mget Op U j (count_kept Op thr s + t)) (fmul Op (vget Op s (count_kept Op thr s + t)) (mget Op Vh (count_kept Op thr s + t) k)))).
+Proof. exact @compress_decompress_lossy. Qed.
+Print Assumptions C04_svd_compress_decompress_lossy.
+
+(* non-vacuity: a threshold that really drops a singular value (num = 1 of 2); entry (1,1) of the data is the dropped tail *)
+Example C04_lossy_nonvacuous :
+  let X := [[2; 0]; [0; 1]]%Z in let U := [[1; 0]; [0; 1]]%Z in let s := [2; 1]%Z in
+  exists score Lm, compress_slice Zops 2 1%Z X (U, s, U) = (score, Some Lm) /\ count_kept Zops 1%Z s = 1 /\ length U = length s /\
+    (forall a b, a < 2 -> b < 2 -> gram Zops U a b = if Nat.eqb a b then 1%Z else 0%Z) /\
+    (forall j k, j < 2 -> k < 2 -> mget Zops X j k = sumn Zops 2 (fun t => (mget Zops U j t * (vget Zops s t * mget Zops U t k))%Z)) /\
+    mget Zops (matmul Zops Lm score) 1 1 = 0%Z /\ mget Zops X 1 1 = 1%Z.
+Proof.
+  cbv zeta. do 2 eexists. split; [vm_compute; reflexivity|]. split; [reflexivity|]. split; [reflexivity|]. split.
+  - intros [|[|a]] [|[|b]] Ha Hb; try lia; reflexivity.
+  - split; [intros [|[|j]] [|[|k]] Hj Hk; try lia; reflexivity|]. split; reflexivity.
+Qed.
+
+(* --- TuckerTensor item access / assignment for every index (Model/TransformsTkObj8.v) *)
+(* obj[0] = <core at location cl'>: the object names the new core, keeps its OLD shape / rank attributes and its factor list; no other cell
+   changes; consistent afterwards exactly when the new core with the old factors is a valid Tucker tensor of the old mode sizes and ranks *)
+Theorem C04_tucker_setitem_core : forall (F : Type) (th : theap (F:=F)) cells o cl' cells',
+  o < length cells -> tucker_setitem_h cells o 0 cl' = Ok cells' ->
+  length cells' = length cells /\ (forall k, k <> o -> tcellr cells' k = tcellr cells k) /\
+  tc_shape (tcellr cells' o) = tc_shape (tcellr cells o) /\ tc_rank (tcellr cells' o) = tc_rank (tcellr cells o) /\
+  tc_fs (tcellr cells' o) = tc_fs (tcellr cells o) /\
+  tobj_read th cells' o = tread th cl' (tc_fs (tcellr cells o)) /\
+  (tobj_consistent th cells' o <->
+   let '(c, fs) := tread th cl' (tc_fs (tcellr cells o)) in
+   tucker_okb c fs = true /\ tc_shape (tcellr cells o) = cp_shape fs /\ tc_rank (tcellr cells o) = map (fun A => ncols A) fs).
+Proof. exact @tucker_setitem_core_spec. Qed.
+Print Assumptions C04_tucker_setitem_core.
+
+(* a well-formed core of the same shape keeps a consistent object consistent *)
+Theorem C04_tucker_setitem_core_same_shape : forall (F : Type) (th : theap (F:=F)) cells o cl' cells',
+  o < length cells -> tucker_setitem_h cells o 0 cl' = Ok cells' -> tobj_consistent th cells o ->
+  wfb (tcore th cl') = true -> shape (tcore th cl') = shape (tcore th (tc_core (tcellr cells o))) ->
+  tobj_consistent th cells' o.
+Proof. exact @tucker_setitem_core_same_shape. Qed.
+Print Assumptions C04_tucker_setitem_core_same_shape.
+
+(* only the indices 0 and 1 exist *)
+Theorem C04_tucker_item_index_error : forall cells o idx loc, 2 <= idx ->
+  tucker_setitem_h cells o idx loc = Err /\ tucker_getitem_h cells o idx = Err.
+Proof. exact tucker_item_index_error. Qed.
+Print Assumptions C04_tucker_item_index_error.
+
+(* item access reads what item assignment wrote; the other item, every other object and the unpacking order agree *)
+Theorem C04_tucker_getitem_setitem : forall cells o idx loc cells',
+  o < length cells -> tucker_setitem_h cells o idx loc = Ok cells' ->
+  tucker_getitem_h cells' o idx = Ok loc /\
+  (forall idx', idx' <> idx -> tucker_getitem_h cells' o idx' = tucker_getitem_h cells o idx') /\
+  (forall o' idx', o' <> o -> tucker_getitem_h cells' o' idx' = tucker_getitem_h cells o' idx') /\
+  tucker_iter_h cells' o = (if Nat.eqb idx 0 then [loc; tc_fs (tcellr cells o)] else [tc_core (tcellr cells o); loc]).
+Proof. exact tucker_getitem_setitem. Qed.
+Print Assumptions C04_tucker_getitem_setitem.
+
+Example C04_round8_setitem_nonvacuous :
+  let core := mk [2; 1] [1; 2]%Z in let core2 := mk [2; 1] [5; 7]%Z in let A := [[1; 0]; [2; 1]]%Z in let B := [[3]]%Z in
+  let th := mk_theap [core; core2] [A; B] [[0; 1]] in
+  exists cells cells', tucker_new_h th [] 0 0 = Ok (cells, 0) /\ tobj_consistent th cells 0 /\
+    tucker_setitem_h cells 0 0 1 = Ok cells' /\ tobj_consistent th cells' 0 /\ fst (tobj_read th cells' 0) = core2 /\
+    tucker_getitem_h cells' 0 0 = Ok 1 /\ tucker_getitem_h cells' 0 1 = Ok 0.
+Proof.
+  cbv zeta. do 2 eexists. split; [vm_compute; reflexivity|]. split; [vm_compute; auto|]. split; [vm_compute; reflexivity|].
+  split; [vm_compute; auto|]. repeat split; vm_compute; reflexivity.
+Qed.
+
+(* --- Parafac2Tensor OBJECTS as heap cells (Model/TransformsPfObj.v): svd_decompress_parafac2_tensor on an object operand, for every heap,
+   every aliasing pattern of the projection list and any entry test `close` of the validator: the weights and factor tables are not
+   touched, the projection tables only grow, no existing cell changes and every existing object holds what it held; the result is a new
+   consistent object that names the operand's own weights array and factor tuple, a NEW projection list, and holds the pure answer *)
+Theorem C04_svd_decompress_object_heap : forall (F : Type) (Op : fops F) (close : F -> F -> bool) (h : poheap (F:=F)) cells o Ls h' cells' o',
+  o < length cells -> pcell_wf h (pcellr cells o) ->
+  svd_decompress_obj_h Op close h cells o Ls = Ok (h', cells', o') ->
+  po_w h' = po_w h /\ po_fs h' = po_fs h /\
+  (exists a, p_arr (po_ph h') = p_arr (po_ph h) ++ a) /\ (exists ls, p_lst (po_ph h') = p_lst (po_ph h) ++ [ls]) /\
+  o' = length cells /\ (forall k, k < length cells -> pcellr cells' k = pcellr cells k) /\
+  (forall k, k < length cells -> pcell_wf h (pcellr cells k) -> pobj_read h' cells' k = pobj_read h cells k) /\
+  pc_w (pcellr cells' o') = pc_w (pcellr cells o) /\ pc_fs (pcellr cells' o') = pc_fs (pcellr cells o) /\
+  pc_ps (pcellr cells' o') = length (p_lst (po_ph h)) /\
+  (let '(w, fs, Ps) := pobj_read h cells o in pobj_read h' cells' o' = (w, fs, decompress_projs Op Ps Ls)) /\
+  pobj_consistent Op close h' cells' o'.
+Proof. exact @svd_decompress_obj_spec. Qed.
+Print Assumptions C04_svd_decompress_object_heap.
+
+(* and it agrees with the value-level entry point svd_decompress_api (Model/TransformsApi.v) on what the result holds and caches *)
+Theorem C04_svd_decompress_object_api : forall (F : Type) (Op : fops F) (close : F -> F -> bool) (h : poheap (F:=F)) cells o Ls h' cells' o',
+  o < length cells -> pcell_wf h (pcellr cells o) ->
+  svd_decompress_obj_h Op close h cells o Ls = Ok (h', cells', o') ->
+  let '(w, fs, Ps) := pobj_read h cells o in
+  svd_decompress_api Op close (Pf2Tuple (Some w) fs Ps) Ls =
+    Ok (let '(w', fs', Ps') := pobj_read h' cells' o' in mk_pf2obj (pc_shape (pcellr cells' o')) (pc_rank (pcellr cells' o')) w' fs' Ps').
+Proof. exact @svd_decompress_obj_api. Qed.
+Print Assumptions C04_svd_decompress_object_api.
+
+Example C04_round8_pf2_object_nonvacuous :
+  let P := [[1]; [0]]%Z in let L := [[0; 1]; [1; 0]; [0; 0]]%Z in
+  let h := mk_poheap [[2]%Z] [[[[1]; [3]]; [[2]]; [[1]; [1]]]%Z] (mk_pheap [P] [[0; 0]]) in
+  exists cells h' cells' o', pf2_new_h Zops Z.eqb h [] 0 0 0 = Ok (cells, 0) /\ pcell_wf h (pcellr cells 0) /\ pobj_consistent Zops Z.eqb h cells 0 /\
+    svd_decompress_obj_h Zops Z.eqb h cells 0 [Some L; None] = Ok (h', cells', o') /\
+    pc_shape (pcellr cells' o') = [[3; 2]; [2; 2]] /\ pc_ps (pcellr cells' o') = 1 /\ plst (po_ph h') 1 = [1; 0] /\
+    snd (pobj_read h' cells' o') = [[[0]; [1]; [0]]; P]%Z.
+Proof.
+  cbv zeta. do 4 eexists. split; [vm_compute; reflexivity|]. split.
+  - unfold pcell_wf. simpl. split; [lia|]. intros l [<-|[<-|[]]]; lia.
+  - split; [vm_compute; auto|]. split; [vm_compute; reflexivity|]. repeat split; vm_compute; reflexivity.
 Qed.
